@@ -139,6 +139,15 @@ class Registry:
             return unary_uf(it, "str.translate", x, lambda s_, r: [z3.Length(r) == z3.Length(s_)])
 
         self.spec_natives["ascii_fold"] = _ascii_fold
+        def _is_instance(it, a, k):
+            qn = vals.concrete_str(a[1])
+            ci = self.repo.lookup_class(qn)
+            clsv = VClass(ci) if ci is not None else VExtClass(qn)
+            return VBool(it.isinstance_(a[0], clsv))
+
+        self.spec_natives["is_instance"] = _is_instance
+        if "XmlOut" not in self.opaques:
+            self.opaques["XmlOut"] = OpaqueClass("XmlOut", {"attrs": {"tag": "str"}})
         self.spec_natives["implies"] = lambda it, a, k: VBool(z3.Implies(it.truthy(a[0]), it.truthy(a[1])))
         def _struct_resolver(qualname):
             ci = self.repo.lookup_class(qualname)
@@ -220,7 +229,7 @@ class Registry:
                 except Unsupported:
                     # ill-typed application: only arises for spec terms under a false guard
                     a = vals.dummy_like(like)
-                terms += a.leaves()
+                terms += vals.canonical(a).leaves()
             sorts = [t.sort() for t in terms]
 
             def namer(n, s):
